@@ -75,9 +75,9 @@ def class_sweep(chk, rng, per_vector, all_entry_points=False):
         # code points: every value of every one of the first octets of a binary vector (type, algorithm, version, format and
         # flag octets sit there), one position at a time - a registered code the class has no branch for is a single value
         walk = [v for v in vectors[cls] if v and not all(32 <= c < 127 or c in (9, 10, 13) for c in v)]
-        walk = sorted(walk, key=len)[:1] if per_vector <= 6 else walk[:6]
+        walk = sorted(walk, key=len)[:1] if per_vector <= 6 else sorted(walk, key=len)[:3]
         for v in walk:
-            for i in range(min(len(v), 8 if per_vector <= 6 else 24)):
+            for i in range(min(len(v), 8 if per_vector <= 6 else 16)):
                 for x in range(256):
                     if x == v[i]:
                         continue
